@@ -86,14 +86,29 @@ func StringHexToScalar(group kyber.Group, str string) (kyber.Scalar, error) {
 func getHex(r io.Reader, l int) ([]byte, error) {
 	bufHex := make([]byte, l*2)
 	bufByte := make([]byte, l)
-	n, err := r.Read(bufHex)
-	if err != nil {
-		return nil, err
+	// An io.Reader may deliver fewer bytes per call than asked for: keep
+	// reading until the buffer is full, the reader fails, ends or stalls.
+	n := 0
+	for n < len(bufHex) {
+		m, err := r.Read(bufHex[n:])
+		n += m
+		if n == len(bufHex) {
+			break
+		}
+		if err != nil {
+			if errors.Is(err, io.EOF) && n > 0 {
+				break
+			}
+			return nil, err
+		}
+		if m == 0 {
+			break
+		}
 	}
 	if n < len(bufHex) {
 		return nil, errors.New("didn't get enough bytes from stream")
 	}
-	_, err = hex.Decode(bufByte, bufHex)
+	_, err := hex.Decode(bufByte, bufHex)
 	if err != nil {
 		return nil, err
 	}
